@@ -26,6 +26,11 @@
                                C call, through item->addr, of a MULTI-RESULT function  f (i64, i64, d) -> (t1, t2[, t3]);
                                the harness reads rax:rdx, xmm0:xmm1, st(0):st(1) itself (c03_call_ret) and hashes the
                                results in order, each truncated to its type; engine `interp` uses MIR_interp_arr
+         callx <f> <s1> <s2> <a> <b>
+                               C call of a helper-signature function that passes one buffer as blk:<s1> and then as
+                               blk:<s2> to the native callees extb<s1>, extb<s2> (prototypes differing only in the block
+                               size).  The harness computes the expected value itself in C (`ref:`): an engine that
+                               differs from it is wrong whatever the others do
      Usage and the `prog` command are those of engine.c. */
 #define _GNU_SOURCE
 #include <stdio.h>
@@ -108,11 +113,26 @@ static void mix_iface (MIR_context_t ctx, MIR_item_t item) {
   iface_of (n > 0 && mn[n - 1] == 'a' ? mix_cur[0] : mix_cur[1]) (ctx, item);
 }
 
+/* native callees taking a MEMORY-class block by value: extb<N> (struct of N bytes, tag) */
+#define DEFB(N)                                                       \
+  struct cb##N { uint64_t w[N / 8]; };                                \
+  int64_t extb##N (struct cb##N s, int64_t tag) {                     \
+    uint64_t h = (uint64_t) tag;                                      \
+    for (int i = 0; i < N / 8; i++) h = c03_mix (h, s.w[i]);          \
+    c03_logcall (14, N, (int64_t) h, 0, 0);                           \
+    return (int64_t) h;                                               \
+  }
+DEFB (24) DEFB (40) DEFB (56) DEFB (72)
+
 static void c03_link (MIR_context_t ctx, void (*set_interface) (MIR_context_t ctx, MIR_item_t item),
                       void *import_resolver (const char *)) {
   MIR_load_external (ctx, "extcb", extcb);
   MIR_load_external (ctx, "extcbw", extcbw);
   MIR_load_external (ctx, "exttab", exttab);
+  MIR_load_external (ctx, "extb24", extb24);
+  MIR_load_external (ctx, "extb40", extb40);
+  MIR_load_external (ctx, "extb56", extb56);
+  MIR_load_external (ctx, "extb72", extb72);
   MIR_link (ctx, mix_cur[0] != 0 ? mix_iface : set_interface, import_resolver);
 }
 
@@ -338,6 +358,56 @@ static void do_callb (const char *fname, int ni, int nf, int cls, int size, uint
   print_cmp ("B", fname, args, rs, sgs, nlogs, c_logs);
 }
 
+/* ---------------- block arguments of several sizes to native callees ---------------- */
+static int64_t call_extb (int sz, const uint64_t *w, int64_t tag) {
+  switch (sz) {
+  case 24: { struct cb24 s; memcpy (&s, w, 24); return extb24 (s, tag); }
+  case 40: { struct cb40 s; memcpy (&s, w, 40); return extb40 (s, tag); }
+  case 56: { struct cb56 s; memcpy (&s, w, 56); return extb56 (s, tag); }
+  default: { struct cb72 s; memcpy (&s, w, 72); return extb72 (s, tag); }
+  }
+}
+
+static void do_callx (const char *fname, int s1, int s2, uint64_t a, uint64_t b) {
+  int64_t rs[MAXENG]; int sgs[MAXENG], nlogs[MAXENG];
+  uint64_t w[10];
+  for (int i = 0; i < 10; i++) w[i] = (a + 1000003ull * (uint64_t) (i + 1)) ^ b; /* as checks/c03_gen.py xblk_func */
+  nlog = 0;
+  int64_t r1 = call_extb (s1, w, (int64_t) b), r2 = call_extb (s2, w, (int64_t) a);
+  int64_t ref = (int64_t) (((uint64_t) r1 * 31) ^ (uint64_t) r2);
+  for (int k = 0; k < neng; k++) {
+    MIR_item_t fi = find_func (engs[k].ctx, fname);
+    if (fi == NULL) { printf ("E no-func %s\n", fname); return; }
+    nlog = 0; rs[k] = 0;
+    int sg;
+    in_call = 1; alarm (4);
+    if ((sg = sigsetjmp (crash_env, 1)) == 0) {
+      if (engs[k].kind == E_INTERP) {
+        MIR_val_t v[3], r[1];
+        memset (v, 0, sizeof (v)); memset (r, 0, sizeof (r));
+        v[0].i = (int64_t) a; v[1].i = (int64_t) b; v[2].d = 0.0;
+        MIR_interp_arr (engs[k].ctx, fi, r, 3, v);
+        rs[k] = r[0].i;
+      } else
+        rs[k] = ((helper_t) fi->addr) ((int64_t) a, (int64_t) b, 0.0);
+    }
+    alarm (0); in_call = 0;
+    sgs[k] = sg; nlogs[k] = nlog;
+    memcpy (c_logs[k], logbuf, sizeof (logbuf[0]) * nlog);
+  }
+  int same = 1;
+  for (int k = 0; k < neng; k++)
+    if (sgs[k] || rs[k] != ref || nlogs[k] != nlogs[0] || memcmp (c_logs[k], c_logs[0], sizeof (logbuf[0]) * nlogs[0]) != 0) same = 0;
+  printf ("X %s %d %d %llx %llx |", fname, s1, s2, (unsigned long long) a, (unsigned long long) b);
+  if (same) { printf (" =%llx log%d\n", (unsigned long long) ref, nlogs[0]); return; }
+  printf (" ref:%llx", (unsigned long long) ref);
+  for (int k = 0; k < neng; k++) {
+    if (sgs[k]) printf (" !SIG%d", sgs[k]);
+    else printf (" %llx%s", (unsigned long long) rs[k], rs[k] == ref ? "" : "*");
+  }
+  printf ("\n");
+}
+
 /* ---------------- multiple results ---------------- */
 struct c03_ret { uint64_t rax, rdx; double x0, x1; long double st0, st1; };
 extern void c03_call_ret (void *fn, int64_t a, int64_t b, double x, struct c03_ret *o, int64_t nld);
@@ -458,6 +528,8 @@ int main (int argc, char **argv) {
       do_callh (tok[1], strtoull (tok[2], NULL, 16), strtoull (tok[3], NULL, 16), strtoull (tok[4], NULL, 16));
     } else if (!strcmp (tok[0], "wide") && nt >= 3) {
       do_wide (tok[1], strtoull (tok[2], NULL, 16));
+    } else if (!strcmp (tok[0], "callx") && nt >= 6) {
+      do_callx (tok[1], atoi (tok[2]), atoi (tok[3]), strtoull (tok[4], NULL, 16), strtoull (tok[5], NULL, 16));
     } else if (!strcmp (tok[0], "callm") && nt >= 6) {
       do_callm (tok[1], tok[2], strtoull (tok[3], NULL, 16), strtoull (tok[4], NULL, 16), strtoull (tok[5], NULL, 16));
     } else if (!strcmp (tok[0], "callb") && nt >= 7) {
